@@ -6,6 +6,8 @@ been advanced past every configured timeout, every device is idle (or reported b
 servable request is queued, every chain MPF planned to the playfield physically delivered a ball, every failed eject
 was retried with the next attempt number / reported lost / reported broken exactly once, and the case came to rest.
 """
+from harness.common import gameworld_c05 as gw, leanproc
+from harness.common.shrink import ddmin
 from harness.corr import C04
 
 ID = "C05"
@@ -13,21 +15,143 @@ LEAN_MODULES = ["MpfVerif.Props.C05"]
 PROPS_FILE = "MpfVerif/Props/C05.lean"
 GEN = []
 MANIFEST = {
-    "text": "PARTIAL proof. Proved in Lean about the eject loop of the ball ledger (Model/BallLedger.lean, shared with C04): a failed eject that is accepted as retryable carries attempt number tries+1, is only possible while attempts remain and excludes the broken report; the following attempt is only accepted with exactly that number; broken is enabled only at tries+1 = max_eject_attempts > 0, at most once, and a broken device takes no further eject-loop transition (no silent retry); ball_left can always time out (no stuck phase); a work measure (queued ejects, remaining attempts, phase) strictly decreases on every step inside an attempt and on every retryable failure when max_eject_attempts > 0, so an eject cannot loop for ever. Session 3 (mechanical / player-controlled ejects): a manual eject with no request pending is ADOPTED, not lost (manual_eject_adopted: the claim moves from the device to the target, the sum of available_balls is unchanged, an eject towards the target is tracked and the ball registered as incoming there, belief ledger untouched); its confirm window can always close (manual_eject_can_time_out); when the plunged ball comes back the request is kept with the same target, attempt 0, and the eject loop's waitTarget is enabled at once (manual_return_is_retried). NOT proved: liveness of the real asyncio coroutines. That is explored on every run: the real devices run inside a physical-world simulator through failure sequences up to max_eject_attempts+2 (stuck, fall-back, late, astray), overlapping requests, drains and lock shots; the ledger monitor must accept every observed step, and the quiescence oracle checks that all devices come to rest idle or broken-and-reported with no servable request left and every planned ball physically delivered.",
-    "note": "Outside the model (named runtime behaviour): asyncio task interleaving and timer expiry inside the coroutines, switch debounce, fairness of the event loop, ball_save and multiball devices (their requests enter through playfield.add_ball, which is what the harness calls), ball search. Trusted: Lean kernel + standard axioms; the hand-written ledger; harness/common/ballworld.py.",
-    "technique": "Lean theorems on a hand-written protocol model (guards, exclusion, strictly decreasing measure) + runtime refinement monitor and quiescence oracle on the real devices",
+    "text": "PARTIAL proof. Proved in Lean about the eject loop of the ball ledger (Model/BallLedger.lean, shared with C04): a failed eject that is accepted as retryable carries attempt number tries+1, is only possible while attempts remain and excludes the broken report; the following attempt is only accepted with exactly that number; broken is enabled only at tries+1 = max_eject_attempts > 0, at most once, and a broken device takes no further eject-loop transition (no silent retry); ball_left can always time out (no stuck phase); a work measure (queued ejects, remaining attempts, phase) strictly decreases on every step inside an attempt and on every retryable failure when max_eject_attempts > 0, so an eject cannot loop for ever. Session 3 (mechanical / player-controlled ejects): a manual eject with no request pending is ADOPTED, not lost (manual_eject_adopted: the claim moves from the device to the target, the sum of available_balls is unchanged, an eject towards the target is tracked and the ball registered as incoming there, belief ledger untouched); its confirm window can always close (manual_eject_can_time_out); when the plunged ball comes back the request is kept with the same target, attempt 0, and the eject loop's waitTarget is enabled at once (manual_return_is_retried). Round 10 (game-level requests: ball start, ball save with eject_delay, multiball start / add-a-ball / shoot again; Model/BallPromise.lean): for every history of announcements, saves and delay expiries promised + over = requested + pending (promises_requested_or_pending: every ball announced to the player has been requested from the playfield or sits in a delayed _add_balls call that is still pending; over = balls a multiball asks for beyond a clamped balls_in_play), with nothing pending promised <= requested (all_delays_fired_all_requested), a pending delayed eject can always fire and requests exactly its balls (pending_save_can_fire), letting all pending delays fire is a run of the model that ends with nothing pending (pending_saves_drain); named_delay_loses_save_witness: a NAMED delay would drop a save announced inside the eject_delay window of another. Tied to the real BallSave / Multiball / Game / Playfield.add_ball by feeding every observed announcement, _schedule_balls / delayed _add_balls call and delivery to the model and comparing promised / requested / pending (read from the ball save's DelayManager) / delivered after every step; the functions are source-pinned. NOT proved: liveness of the real asyncio coroutines. That is explored on every run: the real devices run inside a physical-world simulator through failure sequences up to max_eject_attempts+2 (stuck, fall-back, late, astray), overlapping requests, drains and lock shots; the ledger monitor must accept every observed step, and the quiescence oracle checks that all devices come to rest idle or broken-and-reported with no servable request left and every planned ball physically delivered.",
+    "note": "Outside the model (named runtime behaviour): asyncio task interleaving and timer expiry inside the coroutines, switch debounce, fairness of the event loop, ball search; of ball_save: active_time / hurry-up / grace timers, delayed_eject_events, ball_locks as sources, only_last_ball; of multiball: ball_locks, replace_balls_in_play, the shoot-again timers; in the game world every physical eject succeeds (eject failures are generated in the ball-device streams, where requests enter through playfield.add_ball). Trusted: Lean kernel + standard axioms; the hand-written ledger; harness/common/ballworld.py.",
+    "technique": "Lean theorems on a hand-written protocol model (guards, exclusion, strictly decreasing measure) and on a promise ledger of the game-level requests (invariant by induction over all histories) + runtime refinement monitor and quiescence oracle on the real devices, real game, ball save and multiball",
     "translated": False,
 }
 RULE = C04.RULE + "; C05 (stream 1): half of the cases put a failure sequence of 1-5 outcomes in front of one device's outcome list " \
-    "and issue 1-5 overlapping requests"
-TRUSTED = C04.TRUSTED
+    "and issue 1-5 overlapping requests; game stream (round 10): a real game (1-2 balls per game, 3-5 balls) with a real ball_save " \
+    "(balls_to_save 1 / 2 / -1, eject_delay 0 / 1 / 2 / 3 s, auto_launch yes / no) and a real multiball (ball_count 1-2, add / total, " \
+    "shoot_again 0 / 10 / 30 s) on trough -> plunger -> playfield: 7 directed two-drain cases + random walks over start / mb_start / " \
+    "mb_add / mb_stop / save_on / save_early / save_off / drain / wait / rest, every second one built around 'two balls in play, ball " \
+    "save on, two or three drains a generated gap apart' with the gap biased into the eject_delay window and onto its edges; a case is " \
+    "non-trivial when at least two balls were promised and one was delivered"
+TRUSTED = C04.TRUSTED + ["modelled, not verified: BallSave._schedule_balls / _add_balls, Multiball.start / add_a_ball / "
+                        "_ball_drain_shoot_again and Game.ball_started are tied to Model/BallPromise.lean by the differential run "
+                        "(every observed step compared) and by source pins, not by a translator; harness/common/gameworld_c05.py"]
 ASSUMPTIONS = C04.ASSUMPTIONS + ["weak fairness of the environment: the simulated world always completes a transit; a ball "
-                                 "that falls back does so within eject_timeout"]
+                                 "that falls back does so within eject_timeout",
+                                 "game stream: every delay of the ball save fires (C13); drains happen 1/128 s off MPF's grid and "
+                                 "never while the trough's own eject is under way (known ambiguity misattributed:entry-during-own-eject)"]
+
+
+GW_TIMING = {"leave": gw.GRID, "transit": 4 * gw.GRID}
+
+
+def gen_game_case(r, i):
+    """a real game with a ball save and a multiball; half of the cases are built around the skeleton `two balls in play, ball
+    save on, two drains a generated gap apart` (gap biased to fall inside the eject_delay window), the rest are random walks"""
+    delay = r.choice([0, 1000, 2000, 3000, 3000])
+    count = r.choice([1, 1, 2])
+    case = {"kind": "game", "balls": r.choice([3, 4, 5]), "bpg": r.choice([1, 1, 2]),
+            "save": {"n": r.choice([1, 2, 2, -1, -1]), "delay": delay, "auto": r.random() < 0.7},
+            "mb": {"count": count, "type": "total" if count == 2 and r.random() < 0.4 else "add",
+                   "shoot": r.choice([0, 0, 10000, 30000])},
+            "timing": dict(GW_TIMING, transit=r.choice([2, 4, 6]) * gw.GRID)}
+    window = max(1, delay * 16 // 1000)
+
+    def gap():
+        x = r.random()
+        if x < 0.5:
+            return r.randint(1, window)                 # inside the eject_delay window
+        if x < 0.7:
+            return r.choice([window - 1, window, window + 1, window + 2]) if window > 1 else r.randint(1, 3)
+        return r.randint(window + 1, window + 80)
+    ops = [["start"], ["wait", r.randint(40, 100)]]
+    if i % 2 == 0:
+        ops += [[r.choice(["mb_start", "mb_start", "mb_add"])], ["wait", r.randint(100, 200)], ["save_on"], ["drain"],
+                ["wait", gap()], ["drain"]]
+        if r.random() < 0.4:
+            ops += [["wait", gap()], ["drain"]]
+    pool = ["drain"] * 5 + ["wait"] * 5 + ["mb_start"] * 2 + ["mb_add"] * 2 + ["save_on"] * 3 + ["save_early", "save_off", "mb_stop",
+                                                                                             "rest", "rest", "start"]
+    for _ in range(r.randint(2, 12)):
+        k = r.choice(pool)
+        ops.append(["wait", gap()] if k == "wait" else [k])
+    ops.append(["rest"])
+    case["ops"] = ops
+    return case
+
+
+def seeded_window_case(delay, n, gap):
+    """directed: two balls in play, ball save with eject_delay, both balls drain `gap` ticks apart"""
+    return {"kind": "game", "balls": 4, "bpg": 1, "save": {"n": n, "delay": delay, "auto": True},
+            "mb": {"count": 1, "type": "add", "shoot": 0}, "timing": dict(GW_TIMING),
+            "ops": [["start"], ["wait", 80], ["mb_start"], ["wait", 160], ["save_on"], ["drain"], ["wait", gap], ["drain"], ["rest"]]}
+
+
+def shrink_game(case, sig):
+    def fails(ops):
+        return any(f[0] == sig for f in gw.run_case(dict(case, ops=ops), None).failures)
+    try:
+        return dict(case, ops=ddmin(case["ops"], fails, max_tests=60))
+    except Exception:
+        return case
+
+
+def eval_game_case(ctx, case, model):
+    res = gw.run_case(case, model)
+    ctx.evaluated(case, res.nontrivial)
+    for k, v in res.hist.items():
+        ctx.count(k, v)
+    if model is not None:
+        # one comparison per case: after every step the model's promised / requested / pending / delivered equal the real ones
+        ctx.compare(dict(case, what="promise-ledger"), "agrees" if res.mismatch is None else res.mismatch, "agrees")
+        ctx.count("promise_ledger_samples_compared", res.compared)
+    for sig, detail in res.failures:
+        c2 = case
+        if not ctx.failures:
+            c2 = shrink_game(case, sig)
+        ctx.fail(sig, c2, detail)
+    return res
+
+
+def run_game_stream(ctx):
+    model = None if getattr(ctx, "model_unavailable", False) else leanproc.LeanProc(ID)
+    try:
+        directed = {}
+        for delay, n, gap in ((2000, -1, 8), (2000, 2, 8), (2000, 1, 8), (0, -1, 8), (3000, -1, 47), (3000, -1, 49), (1000, 2, 80)):
+            res = eval_game_case(ctx, seeded_window_case(delay, n, gap), model)
+            directed["delay%d_n%d_gap%d" % (delay, n, gap)] = {"failures": [f[0] for f in res.failures], "ledger": res.ledger}
+        ctx.notes["game_directed_cases"] = directed
+        for i in range(ctx.n(150, 1200)):
+            eval_game_case(ctx, gen_game_case(ctx.rng("game", i), i), model)
+            if len(ctx.failures) >= 3:
+                break
+    finally:
+        if model is not None:
+            model.close()
+
+
+def race_at_ball_missing_deadline_case():
+    """observation of a round-10 breaker, reproduced (NOT failed on: the damage is to the counts, C04's business, and the mechanism is
+    the one of C04's known finding race:ball-counted-at-source-eject-timeout-instant): trough -> plunger -> playfield, the trough's
+    ball is late and is counted by the plunger (entrance count delay 0.5 s) in the very loop instant at which the trough's
+    ball_missing_timeout expires; lost_ejected_ball -> cancel_path_if_target_is completes the plunger's _cancel_future, Util.first in
+    _ejecting cancels BallCountHandler.wait_for_ball() between `self._ball_count = new_balls` and `_set_ball_count()`"""
+    G = gw.GRID
+    return {"p": dict(C04.WP), "timing": {"leave": G, "transit": 4 * G, "fallback": 6 * G, "late": -8 * G, "pf_switch": False,
+                                          "ambiguous": True},
+            "outcomes": {"trough": ["verylate"]}, "ops": [["add_ball"], ["rest"]]}
 
 
 def run(ctx):
     C04.run(ctx, focus="C05", ident=ID)
+    try:
+        res = C04.bw.run_case(race_at_ball_missing_deadline_case(), None, "C04")
+        ctx.notes["observed_race_ball_counted_at_ball_missing_deadline"] = [f[0] for f in res.failures]
+        ctx.count("observed_outside_property_race_ball_counted_at_ball_missing_deadline", 1 if res.failures else 0)
+    except Exception as e:         # an observation only
+        ctx.notes["observed_race_ball_counted_at_ball_missing_deadline"] = "error: %r" % (e,)
+    if len([f for f in ctx.failures if f["signature"] not in C04.LISTED]) < 3:
+        run_game_stream(ctx)
 
 
 def replay(ctx, rep):
+    if rep["case"].get("kind") == "game":
+        case = dict(rep["case"])
+        case["timing"] = {k: (float(v) if isinstance(v, str) else v) for k, v in case["timing"].items()}
+        eval_game_case(ctx, case, None)
+        return
     C04.replay(ctx, rep, focus="C05")
